@@ -8,10 +8,12 @@ META = {
             "model behaviours with the same uuid created on several replicas; after every step TLC checks on every replica that no two "
             "live entries share a uuid, a name or an spn, and at quiescence that conflict states are identical everywhere (shared "
             "Converged predicate).",
-    "note": "the attrunique conflict resolution itself is exercised on the real servers, KRepl models uuid add-conflicts only; "
-            "uniqueness is judged on the projected model population",
+    "note": "KRepl models uuid add-conflicts and the post-replication attrunique rule (every party to a name clash goes to the conflict "
+            "state) in KReplMC_uniq; model hypotheses are replayed, only observations of the real servers are judged; uniqueness is "
+            "judged on the projected model population (names, spns, uuids)",
     "design_ref": "DESIGN.md section 6, C19",
     "technique": "TLA+ spec KRepl model-checked by TLC; histories with a tiny name pool replayed on real servers and validated by KReplTrace (UniqueLive)",
 }
 def run(tier, replay):
-    _repl.run_property(PID, tier, replay, META, "converge", sorted(glob.glob("/verif/spec/witness/C19-*.ndjson")))
+    _repl.run_property(PID, tier, replay, META, "converge", sorted(glob.glob("/verif/spec/witness/C19-*.ndjson")),
+                       cfgs_quick=["KReplMC_uniq_quick"], cfgs_thorough=["KReplMC_uniq", "KReplMC_2r"])
